@@ -327,6 +327,13 @@ func kinds(thorough bool) []kindSpec {
 			vs = append(vs, rv(b))
 		}
 		ks = append(ks, kindSpec{"[]int", vi}, kindSpec{"[]string", vs})
+		// byte slices whose content is multi-byte UTF-8: the measure of a slice is its length, whatever it holds
+		var vb []reflect.Value
+		for n := 1; n <= 3; n++ {
+			vb = append(vb, rv([]byte(strings.Repeat("中", n))), rv([]byte(strings.Repeat("a", n))), rv([]byte(strings.Repeat("😀", n))), rv([]byte(strings.Repeat("é", n)+"a")))
+		}
+		vb = append(vb, rv([]byte("中文ab")), rv([]byte{0xff}), rv([]byte{0, 0}))
+		ks = append(ks, kindSpec{"[]uint8", vb})
 	}
 	return ks
 }
